@@ -132,9 +132,9 @@ func sameGhost(a, b *ghost) bool {
 // and never alters the response or a panic.
 func HarnessC20Log(st any) {
 	s := st.(*c20State)
-	behaviour := sym.Choose("behaviour", 7)
+	behaviour := sym.Choose("behaviour", 9)
 	code := 200
-	if behaviour == 0 || behaviour == 6 {
+	if behaviour == 0 || behaviour >= 6 {
 		code = sym.Int("code", 100, 999)
 	}
 	handlerDone := 0
@@ -155,6 +155,13 @@ func HarnessC20Log(st any) {
 		case 6:
 			c.SetHeader("Location", "/preferred") // any status together with a Location header
 			c.Writer().WriteHeader(code)
+		case 7:
+			// late error path: the response has started, the second status never reaches the client
+			_, _ = c.Writer().Write([]byte("ok"))
+			c.Writer().WriteHeader(code)
+		case 8:
+			c.Writer().WriteHeader(http.StatusCreated)
+			c.Writer().WriteHeader(code) // superfluous
 		}
 		s.sink.seq++
 		handlerDone = s.sink.seq
